@@ -233,7 +233,9 @@ def check_file(h, opts, rep, steps_done=None, pfx="C10", full=True):
                     k = share / float(pop[rec, b]) if pop[rec, b] != 0 else 1.0
                     corr = float(np.max(np.abs(pr * k - want_pr))) / pmax
                     rep.ev("renormalised_records")
-                    if not rep.r("profile_vs_phasespace_renorm_model", corr, 2e-5):
+                    if abs(k - 1) > 0.05:
+                        rep.ev("degenerate_records_skipped")      # most of the charge has left the grid: diverged run
+                    elif not rep.r("profile_vs_phasespace_renorm_model", corr, 2e-5):
                         rep.v(pfx + ":profile", "stored bunch profile is not the projection of the stored phase space (even allowing for the renormalisation factor share/population)",
                               record=rec, step=step, bunch=b, rel_err=corr, factor=k)
                     elif raw > 2e-5:
@@ -251,20 +253,23 @@ def check_file(h, opts, rep, steps_done=None, pfx="C10", full=True):
             if not (abs(want_pop) > 1e-6) or not np.all(np.isfinite(pr)) or not np.all(np.isfinite(ep)):
                 rep.ev("degenerate_records_skipped")
                 continue
-            m, s = moments(pr, q, delta, want_pop)
-            okp = rep.r("position_vs_profile", abs(pos[rec, b] - m), 2e-5 * max(P["pq"], abs(m)))
-            okl = True if s is None else rep.r("length_vs_profile", abs(blen[rec, b] - s), 2e-5 * max(P["pq"], s))
-            if s is None:
-                rep.ev("degenerate_records_skipped")
-            if not okp or not okl:
-                rep.v(pfx + ":position_length", "stored bunch position/length are not the moments of the stored profile (over the true position axis)",
-                      record=rec, step=step, bunch=b, position=float(pos[rec, b]), want_position=m, length=float(blen[rec, b]), want_length=s)
-            m, s = moments(ep, p, delta, want_pop)
-            okp = rep.r("energy_avg_vs_profile", abs(eav[rec, b] - m), 2e-5 * max(P["pq"], abs(m)))
-            okl = True if s is None else rep.r("energy_spread_vs_profile", abs(esp[rec, b] - s), 2e-5 * max(P["pq"], s))
-            if not okp or not okl:
-                rep.v(pfx + ":energy_moments", "stored mean energy/spread are not the moments of the stored energy profile (over the true energy axis)",
-                      record=rec, step=step, bunch=b, mean=float(eav[rec, b]), want_mean=m, spread=float(esp[rec, b]), want_spread=s)
+            for (nm, profile, axis, got_m, got_s, key, what) in (
+                    ("position", pr, q, pos[rec, b], blen[rec, b], ":position_length", "stored bunch position/length are not the moments of the stored profile (over the true position axis)"),
+                    ("energy", ep, p, eav[rec, b], esp[rec, b], ":energy_moments", "stored mean energy/spread are not the moments of the stored energy profile (over the true energy axis)")):
+                m, sd = moments(profile, axis, delta, want_pop)
+                # single-precision accumulation: error relative to the sum of |terms| (matters only for diverged runs with huge cancellations)
+                a1 = float(np.sum(np.abs(profile * axis))) * delta / abs(want_pop)
+                a2 = float(np.sum(np.abs(profile) * (axis - m) ** 2)) * delta / abs(want_pop)
+                tol_m = 2e-5 * max(P["pq"], a1)
+                okp = rep.r(nm + "_mean_vs_profile", abs(got_m - m) / tol_m, 1.0)
+                okl = True
+                if sd is None:
+                    rep.ev("degenerate_records_skipped")
+                else:
+                    tol_s = 2e-5 * max(P["pq"], sd) + 4e-5 * a2 / (2 * sd) + tol_m * abs(a1) / max(sd, 1e-30) * 0.0
+                    okl = rep.r(nm + "_width_vs_profile", abs(got_s - sd) / tol_s, 1.0)
+                if not okp or not okl:
+                    rep.v(pfx + key, what, record=rec, step=step, bunch=b, mean=float(got_m), want_mean=m, width=float(got_s), want_width=sd)
     # ---- wake potential ------------------------------------------------------------------------
     if full and opts.get("_has_wake", True) and "/WakePotential/data" in h and "/Impedance/data/real" in h:
         wk = h["/WakePotential/data"].astype(np.float64)
@@ -308,17 +313,21 @@ def check_file(h, opts, rep, steps_done=None, pfx="C10", full=True):
                     tot = df * float(np.sum(spec[rec, b]))
                     if np.any(spec[rec, b] < 0):
                         rep.v(pfx + ":csr_negative", "stored CSR spectrum has negative entries", record=rec, bunch=b)
-                    # the top bin N/2 enters the intensity but is not stored: allow one more bin like the last stored ones
-                    slack = 2e-4 * (abs(tot) + abs(inten[rec, b])) + 1.5 * df * float(np.max(spec[rec, b, -3:])) + 1e-300
-                    if not rep.r("csr_intensity_vs_spectrum", abs(inten[rec, b] - tot) / slack, 1.0):
-                        rep.v(pfx + ":csr_intensity" + (":bunch>0" if b > 0 else ""), "stored CSR intensity is not delta_f times the sum of the stored spectrum of that bunch",
-                              record=rec, bunch=b, intensity=float(inten[rec, b]), df_sum_spectrum=tot)
+                    # the top bin N/2 enters the intensity but is not stored: estimate it from the last stored bin and the
+                    # oracle's own form factors (the radiation impedance is smooth: Re Z[N/2] ~ Re Z[N/2-1])
+                    pad = np.zeros(Nr); pad[:n] = prof[rec, b]
+                    Fall = np.abs(np.fft.rfft(pad)) ** 2
+                    est = float(spec[rec, b, -1]) * Fall[Nr // 2] / Fall[Nr // 2 - 1] if Fall[Nr // 2 - 1] > 0 else 0.0
+                    slack = 2e-4 * (abs(tot) + abs(inten[rec, b])) + 0.6 * df * abs(est) + 1e-300
+                    if not rep.r("csr_intensity_vs_spectrum", abs(inten[rec, b] - tot - df * est) / slack, 1.0):
+                        rep.v(pfx + ":csr_intensity" + (":bunch>0" if b > 0 else ""), "stored CSR intensity is not delta_f times the sum of the stored spectrum of that bunch (plus the unstored top bin)",
+                              record=rec, bunch=b, intensity=float(inten[rec, b]), df_sum_spectrum=tot, top_bin_estimate=df * est)
                         break
                     if b > 0:
                         # spectrum_b * |F_0|^2 == spectrum_0 * |F_b|^2 where both are well above rounding
                         lhs, rhs = spec[rec, b] * F2[0], spec[rec, 0] * F2[b]
                         scale = np.maximum(np.abs(lhs), np.abs(rhs))
-                        sel = (F2[0] > 1e-6 * np.max(F2[0])) & (F2[b] > 1e-6 * np.max(F2[b])) & (scale > 0)
+                        sel = (F2[0] > 1e-4 * np.max(F2[0])) & (F2[b] > 1e-4 * np.max(F2[b])) & (scale > 0)
                         if np.any(sel):
                             e = float(np.max(np.abs(lhs - rhs)[sel] / scale[sel]))
                             rep.ev("csr_rows_compared")
@@ -349,7 +358,7 @@ def step_index(h, steps, axis="/Info/AxisValues_t"):
     return {int(s): i for i, s in enumerate(np.rint(t * steps).astype(int))}
 
 
-def compare_common_records(ha, hb, steps, datasets=None, particles=False, tol=None, phasespace=True):
+def compare_common_records(ha, hb, steps, datasets=None, particles=False, tol=None, phasespace=True, allow_empty=False):
     """All records (matched by step number) present in both files must be identical in every physics
     dataset.  Returns (n_compared, [mismatch dicts]).  tol=None -> bitwise; else relative to max."""
     datasets = list(PHYSICS_DATASETS if datasets is None else datasets)
@@ -373,7 +382,7 @@ def compare_common_records(ha, hb, steps, datasets=None, particles=False, tol=No
             continue
         A, B = ha[ds], hb[ds]
         if A.shape[0] == 0 or B.shape[0] == 0:
-            if (A.shape[0] == 0) != (B.shape[0] == 0) and ds != "/Particles/data":
+            if (A.shape[0] == 0) != (B.shape[0] == 0) and ds != "/Particles/data" and not allow_empty:
                 bad.append(dict(dataset=ds, step=None, why="one file has no records"))
             continue
         for s in sorted(set(ia) & set(ib)):
